@@ -590,6 +590,12 @@ class Fn:
             v = self.value_of_operand(rv["op"], depth + 1)
             if v is not None:
                 return v
+        if rv["k"] == "ref" and depth < 16 and len(rv["place"]["proj"]) == 1 and \
+                rv["place"]["proj"][0]["k"] == "deref":
+            # &*x is x (reborrow)
+            v = self.value_of_local(rv["place"]["local"], depth + 1)
+            if v.get("k") in ("const", "call", "arg"):
+                return v
         if rv["k"] == "ref" and depth < 16 and not rv["place"]["proj"]:
             # &local : look through (used for `&Operation::negate`, `&*x`)
             v = self.value_of_local(rv["place"]["local"], depth + 1)
